@@ -1,6 +1,8 @@
 package main
 
 import (
+	"fmt"
+	"os/exec"
 	"sort"
 	"encoding/json"
 	"go/types"
@@ -52,8 +54,74 @@ func mergeBounded(prop string, ev map[string]any) {
 	}
 }
 
+// tryReplay: replay a counterexample against the real code.
+//   - protocol obligations of package db (ErrFlow/TxnAPI): the fault-injection harness
+//     /verif/harness/db/zz_c05_fault_test.go drives the API calls that reach the function and fails
+//     every storage operation in turn (go test -overlay; nothing is written into /repo).
+//   - functional (strict) units: see replayFunctional.
 func tryReplay(w *World, r *OblResult, workdir string) *replayOutcome {
+	g := r.O.G
+	if g.fn != nil && g.unit.Strict {
+		return replayFunctional(w, r, workdir)
+	}
+	if g.fn != nil && g.fn.Pkg != nil && g.fn.Pkg.Pkg.Path() == modPath+"/internal/db" && g.unit.ErrFlow {
+		return replayFaults(w, r, workdir)
+	}
 	return &replayOutcome{Outcome: "not-attempted", Note: "no replay generator for this function shape"}
+}
+
+func mergedOverlay(workdir string, extra map[string]string) string {
+	o := struct{ Replace map[string]string }{Replace: map[string]string{}}
+	if ov := os.Getenv("GOVC_OVERLAY"); ov != "" {
+		if data, err := os.ReadFile(ov); err == nil {
+			json.Unmarshal(data, &o)
+		}
+	}
+	for k, v := range extra {
+		o.Replace[k] = v
+	}
+	data, _ := json.Marshal(o)
+	p := filepath.Join(workdir, fmt.Sprintf("overlay-%d.json", len(extra)+len(o.Replace)))
+	os.WriteFile(p, data, 0o644)
+	return p
+}
+
+func replayFaults(w *World, r *OblResult, workdir string) *replayOutcome {
+	out := filepath.Join(workdir, "c05-replay.json")
+	ov := mergedOverlay(workdir, map[string]string{w.repo + "/internal/db/zz_c05_fault_test.go": filepath.Join(verifDir, "harness/db/zz_c05_fault_test.go")})
+	cmd := exec.Command("go", "test", "-overlay", ov, "-vet=off", "-count=1", "-timeout", "240s", "-run", "^TestGovcC05Faults$", "./internal/db")
+	cmd.Dir = w.repo
+	cmd.Env = append(os.Environ(), "VERIF_C05_FUNC="+r.O.Func, "VERIF_C05_OUT="+out, "GOFLAGS=-mod=mod", "GOPROXY=off")
+	b, _ := cmd.CombinedOutput()
+	data, err := os.ReadFile(out)
+	if err != nil {
+		return &replayOutcome{Outcome: "not-attempted", Note: "fault harness did not run", Output: truncate(string(b), 4000)}
+	}
+	var res struct {
+		Scenarios  []string         `json:"scenarios"`
+		Cases      int              `json:"cases"`
+		Violations []map[string]any `json:"violations"`
+	}
+	json.Unmarshal(data, &res)
+	ro := &replayOutcome{Test: "go test -overlay … -run ^TestGovcC05Faults$ ./internal/db (VERIF_C05_FUNC=" + r.O.Func + ")"}
+	if len(res.Scenarios) == 0 {
+		ro.Outcome = "not-attempted"
+		ro.Note = "no fault scenario drives " + r.O.Func
+		return ro
+	}
+	if len(res.Violations) > 0 {
+		ro.Outcome = "reproduced"
+		first, _ := json.Marshal(res.Violations[0])
+		ro.Inputs = fmt.Sprintf("scenarios %v: %d of %d fault points violate all-or-nothing; first: %s", res.Scenarios, len(res.Violations), res.Cases, first)
+		return ro
+	}
+	ro.Outcome = "not-reproduced"
+	ro.Note = fmt.Sprintf("scenarios %v: %d fault points, none violates all-or-nothing at the API level", res.Scenarios, res.Cases)
+	return ro
+}
+
+func replayFunctional(w *World, r *OblResult, workdir string) *replayOutcome {
+	return &replayOutcome{Outcome: "not-attempted", Note: "functional replay not implemented for this signature"}
 }
 
 // modelTerms: the terms whose values describe a counterexample: parameters (scalars directly,
